@@ -13,9 +13,19 @@ for m in sorted(glob.glob('/verif/seeded/%s-*/meta.json' % pid)):
     note = (json.load(open(m)).get('needs_to_manifest') or '').strip().replace("\n", " ")
     prior.append("  - " + note[:420])
 PRIOR = ""
-if prior and (os.environ.get("WAVE3") or os.environ.get("WAVE4")):
+if prior and (os.environ.get("WAVE3") or os.environ.get("WAVE4") or os.environ.get("WAVE5")):
     PRIOR = "\n\nOther people have ALREADY proposed the following changes for this property; yours must be genuinely different (different mechanism, different code site or different trigger), not variations of these:\n" + "\n".join(prior) + "\n"
-NUM = "THREE" if (os.environ.get("WAVE3") or os.environ.get("WAVE4")) else "TWO"
+NUM = "THREE" if (os.environ.get("WAVE3") or os.environ.get("WAVE4") or os.environ.get("WAVE5")) else "TWO"
+if os.environ.get("WAVE5"):
+    PRIOR += """
+Many obvious ideas are taken (see the list above), so dig deeper. Favour changes of these kinds (at least two of your three):
+  (f) ERROR PATHS: the behaviour when something legitimately fails or is absent (missing attribute, empty input, unknown id, an exception raised by a user callback, an interrupted iteration) - the library must still keep the property for what follows;
+  (g) ARGUMENT FORMS: a public function accepts several forms of the same argument (id string vs Feature object, list vs tuple vs generator vs single string, keyword vs positional, str vs int coordinates, Path-like vs str) and only one rarely used form misbehaves;
+  (h) TWO METHODS ON ONE OBJECT: calling one public method changes what a later call of another public method on the same object (or on another object of the same class, or in the same process) returns;
+  (i) DEFAULTS: a default value that is evaluated once, shared, or differs subtly from what the documentation says, so that only callers relying on the default (or only callers NOT relying on it) are affected;
+  (j) OFF-BY-ONE AT A DOCUMENTED BOUNDARY that toy examples do not touch (first/last line of a file, first/last feature of a chromosome, exactly N items where N is a constant in the code, zero-length or one-base features, coordinate 1 or the largest supported coordinate).
+"""
+
 if os.environ.get("WAVE4"):
     PRIOR += """
 This time, favour changes whose trigger is one of the following (at least two of your three should be of these kinds):
